@@ -368,18 +368,22 @@ func VerifC02_Dormbr() {
 	minnqk := verifC02min(nq, k)
 	var lda int
 	var a []float64
+	pad := verifChoose("pad", 0, 1) // lda and ldc both minimal or both minimal+1
 	if applyQ {
-		lda = verifC02ld("ldaPad", minnqk)
+		lda = verifC02max(1, minnqk) + pad
 		a = verifC02mat("a", nq, minnqk, lda)
 	} else {
-		lda = verifC02ld("ldaPad", nq)
+		lda = verifC02max(1, nq) + pad
 		a = verifC02mat("a", minnqk, nq, lda)
 	}
-	ldc := verifC02ld("ldcPad", n)
+	ldc := verifC02max(1, n) + pad
 	tau := verifFloats("tau", minnqk)
 	c := verifC02mat("c", m, n, ldc)
 	a0, tau0, c0 := verifC02clone(a), verifC02clone(tau), verifC02clone(c)
-	lwork := verifC02lworkChoice("lwork", verifC02max(1, nw))
+	lwork := verifC02max(1, nw) // documented minimum or generous
+	if verifChoose("lwork", 0, 1) == 1 {
+		lwork = 4*lwork + 7
+	}
 	work := verifFloats("work", lwork)
 	vect := lapack.ApplyQ
 	if !applyQ {
